@@ -5,7 +5,7 @@
 From Coq Require Import String.
 From Coq Require Import List Arith Lia Bool ZArith Permutation Ring.
 From NV.Lib Require Import RingMat.
-From NV.C01 Require Import Model Exec Proofs ProofsZ.
+From NV.C01 Require Import Model Exec Proofs ProofsZ CMap CMapProofs.
 Import ListNotations.
 
 Section Generic.
@@ -115,6 +115,79 @@ Print Assumptions product_acts_blockwise.
 Print Assumptions append_axis_leaves_rest_untouched.
 Print Assumptions shifted_domain_origin_apply.
 Print Assumptions shifted_range_origin_apply.
+
+
+(* ------------------------------------------------------------------------
+   General (non-affine) CoordinateMap: the forward function is ARBITRARY. *)
+Section GenericCMap.
+  Variable R : Type.
+  Variables (r0 r1 : R) (radd rmul rsub : R -> R -> R) (ropp : R -> R).
+  Hypothesis Rth : ring_theory r0 r1 radd rmul rsub ropp (@eq R).
+
+  Theorem cmap_compose_apply : forall maps c,
+    cm_compose R maps = Ok c ->
+    exists lastM, In lastM maps /\ cdom c = cdom lastM /\
+      forall x, cfun c x = cm_apply_seq R (rev maps) x.
+  Proof. exact (cm_compose_apply R). Qed.
+
+  Theorem cmap_compose_refuses_mismatched_systems : forall f g,
+    cs_eqb (cdom f) (crng g) = false -> cm_compose R [f; g] = Err EValue.
+  Proof. exact (cm_compose_refuses_mismatch R). Qed.
+
+  Theorem cmap_reordered_domain_preserves_named_mapping : forall c order b (g : nat -> R),
+    cm_reordered_domain R r0 r1 radd rmul c order = Ok b ->
+    cfun b (map g order) = cfun c (map g (seq 0 (cs_ndim (cdom c)))) /\
+    cnames (cdom b) = map (fun i => nth i (cnames (cdom c)) EmptyString) order /\
+    crng b = crng c /\ Permutation order (seq 0 (cs_ndim (cdom c))).
+  Proof. exact (cm_reorder_domain_named R r0 r1 radd rmul rsub ropp Rth). Qed.
+
+  Theorem cmap_reordered_range_preserves_named_mapping : forall c order b x,
+    cm_reordered_range R r0 r1 radd rmul c order = Ok b ->
+    length (cfun c x) = cs_ndim (crng c) ->
+    cfun b x = map (fun o => nth o (cfun c x) r0) order /\
+    cnames (crng b) = map (fun i => nth i (cnames (crng c)) EmptyString) order /\
+    cdom b = cdom c /\ Permutation order (seq 0 (cs_ndim (crng c))).
+  Proof. exact (cm_reorder_range_named R r0 r1 radd rmul rsub ropp Rth). Qed.
+
+  Theorem cmap_renamed_domain_only_relabels : forall c nn b,
+    cm_renamed_domain R c nn = Ok b ->
+    cfun b = cfun c /\ cnames (cdom b) = rename_list (cnames (cdom c)) nn /\ crng b = crng c.
+  Proof. exact (cm_rename_domain_relabels R). Qed.
+
+  Theorem cmap_renamed_range_only_relabels : forall c nn b,
+    cm_renamed_range R c nn = Ok b ->
+    cfun b = cfun c /\ cnames (crng b) = rename_list (cnames (crng c)) nn /\ cdom b = cdom c.
+  Proof. exact (cm_rename_range_relabels R). Qed.
+
+  Theorem cmap_product_acts_blockwise : forall a b inn outn p x y,
+    cm_product R [a; b] inn outn = Ok p ->
+    length x = cs_ndim (cdom a) ->
+    cfun p (x ++ y) = cfun a x ++ cfun b (firstn (cs_ndim (cdom b)) y) /\
+    cnames (cdom p) = cnames (cdom a) ++ cnames (cdom b) /\
+    cnames (crng p) = cnames (crng a) ++ cnames (crng b).
+  Proof. exact (cm_product2_blockwise R). Qed.
+
+  Theorem cmap_inverse_swaps_and_undoes : forall c ci,
+    cm_inverse R c = Some ci ->
+    cdom ci = crng c /\ crng ci = cdom c /\
+    (forall finv, cinv c = Some finv -> (forall x, finv (cfun c x) = x) -> forall x, cfun ci (cfun c x) = x).
+  Proof. exact (cm_inverse_swaps_and_undoes R). Qed.
+
+  Theorem as_coordinate_map_agrees_with_affine : forall a ainv x,
+    cfun (cm_of_aff R r0 r1 radd rmul a ainv) x = happly r0 r1 radd rmul (amat a) x /\
+    cdom (cm_of_aff R r0 r1 radd rmul a ainv) = adom a /\ crng (cm_of_aff R r0 r1 radd rmul a ainv) = arng a.
+  Proof. exact (as_coordinate_map_agrees R r0 r1 radd rmul). Qed.
+End GenericCMap.
+
+Print Assumptions cmap_compose_apply.
+Print Assumptions cmap_compose_refuses_mismatched_systems.
+Print Assumptions cmap_reordered_domain_preserves_named_mapping.
+Print Assumptions cmap_reordered_range_preserves_named_mapping.
+Print Assumptions cmap_renamed_domain_only_relabels.
+Print Assumptions cmap_renamed_range_only_relabels.
+Print Assumptions cmap_product_acts_blockwise.
+Print Assumptions cmap_inverse_swaps_and_undoes.
+Print Assumptions as_coordinate_map_agrees_with_affine.
 
 (* Every map produced by ANY finite program of operations (compose / product / reorder /
    rename / inverse / shift-origin / append-drop-axis) is a well-formed affine map:
